@@ -148,7 +148,9 @@ func (m *Engine) PrintBinds(keymap string, inputrcFormat bool) {
 
 	for _, command := range commands {
 		for key, bind := range binds {
-			if bind.Action != command {
+			// A macro whose text happens to be the name of
+			// a command is not a binding to that command.
+			if bind.Action != command || bind.Macro {
 				continue
 			}
 
